@@ -157,11 +157,35 @@ def main(argv):
 
     # (3) conditions ---------------------------------------------------------------------
     jobs = []
+    # thorough tier = every quick slice with its quick budget, plus the thorough-only slices.  A wall-clock budget per property
+    # (VERIF_THOROUGH_BUDGET_S, default 1200 s) caps the per-slice budgets of the thorough-only slices so that their worst case
+    # (every slice running into its time-out) stays near the budget.  Slices that run out of budget end inconclusive
+    # (reported, never counted as discharged, never a violation).
+    def _key(sl):
+        return json.dumps(sl, default=list)
+    tmo_of = {}
+    budget = float(os.environ.get("VERIF_THOROUGH_BUDGET_S", "1200"))
+    plan = []  # (condition, slice, budget)
+    extra = []
     for c in conds:
-        tmo = c.thorough_timeout if tier == "thorough" else c.timeout
-        for sl in c.slices_for(tier):
-            jobs.append((c, sl, False, tmo))
-            jobs.append((c, sl, True, min(tmo, 120)))
+        quick = c.slices_for("quick") if c.tier == "quick" else []
+        for sl in quick:
+            plan.append((c, sl, c.timeout))
+        tmo_of[c.name] = c.timeout
+        if tier == "thorough":
+            qk = set(_key(sl) for sl in quick)
+            for sl in c.slices_for("thorough"):
+                if _key(sl) not in qk:
+                    extra.append((c, sl))
+    if extra:
+        per = budget * NPROC / len(extra)
+        for c, sl in extra:
+            t = max(60.0, min(c.thorough_timeout, per))
+            plan.append((c, sl, t))
+            tmo_of[c.name + " (thorough-only slices)"] = round(t, 1)
+    for c, sl, tmo in plan:
+        jobs.append((c, sl, False, tmo))
+        jobs.append((c, sl, True, min(tmo, 120)))
     results = []
     with cf.ThreadPoolExecutor(max_workers=NPROC) as ex:
         futs = {}
@@ -183,8 +207,8 @@ def main(argv):
     cond_records = []
     validated = 0
     samples = []
-    for c in conds:
-        for sl in c.slices_for(tier):
+    for c, sl, _tmo in plan:
+        if True:
             key = (c.name, json.dumps(list(sl) if isinstance(sl, tuple) else sl))
             m = mains[key]
             t = twins[key]
@@ -294,13 +318,16 @@ def main(argv):
             "discharged": discharged,
             "inconclusive": inconclusive,
             "exhaustive": bool(obligations) and discharged == obligations,
-            "explanation": "states = execution paths explored by CrossHair (each decided by z3 for ALL values of the "
-                           "symbolic inputs on that path); transitions = z3 check() calls; an obligation is one "
+            "explanation": "states = execution paths explored by CrossHair; in a symbolic-data condition a path is decided by z3 "
+                           "for ALL values of the symbolic inputs on that path, in a history / schedule condition (DESIGN.md 2.2) a path "
+                           "is one concrete run of the real code selected by solver-decided choice variables and the claim is "
+                           "that every choice vector within the bound was visited; transitions = z3 check() calls; an obligation is one "
                            "condition x partition slice and is discharged only when CrossHair exhausted its path tree "
                            "(CONFIRMED) and its reachability twin was refuted; traces_validated = solver-chosen inputs "
                            "re-executed on the real, unstubbed code that agreed with the confirmed assertion.",
             "functions_encoded": functions,
             "bounds": {c.name: c.bounds for c in conds},
+            "per_slice_time_budget_s": tmo_of,
             "conditions": [
                 {k: r[k] for k in ("name", "slice", "verdict", "status", "paths", "z3_queries", "solver_s", "wall_s")}
                 for r in cond_records
